@@ -9,6 +9,8 @@ Shape token `id;eqc;geom;dt;props;lon,lat` (no blanks):
 * `props` `-` or `k=v,k=v` with `v` = `u<int>` (user value) or `t<µs>` (instant);
 * `lon,lat` exact rationals of `centroid.to_float()`.
 
+In `fc.eq` lines a token whose `id` occurs more than once (within one operand or in both) denotes the *same object*.
+
 Sections of a line are separated by a `|` token.  Per-shape facts measured on the implementation are
 tables indexed by shape id `0..n-1`: truth tables `b:TFT…`, boxes `x0,y0,x1,y1`.
 -/
@@ -213,6 +215,21 @@ def handleFCOn (op : String) (c : Coll) (rest : List (List String)) : String :=
       | .error e => e
       | .ok c2 => withSrc c (showRes (Coll.add c c2)) ++ " # " ++ showShapes c2.shapes
     | _, _ => "bad-op"
+  | "eq", [[k2], shapes2, [ord], _label] =>
+    -- `fc.eq K | shapes | K2 | shapes2 | ab|ba | label`: `left == right` and `left != right`; K2 = `L` (a plain list of the
+    -- members) / `N` (not a collection at all): every `__eq__` in sight answers False, in both orders
+    let ans (b : Bool) : String := showBool b ++ " " ++ showBool (!b)
+    match parseShapes shapes2 with
+    | none => "bad-op"
+    | some l2 =>
+      if k2 == "L" || k2 == "N" then withSrc c (ans false) ++ " # " ++ showShapes l2
+      else match parseTag k2 with
+        | none => "bad-op"
+        | some t2 =>
+          match Coll.build t2 l2 with
+          | .error e => e
+          | .ok c2 =>
+            withSrc c (ans (if ord == "ab" then Coll.eqColl c c2 else Coll.eqColl c2 c)) ++ " # " ++ showShapes c2.shapes
   | "getidx", [[i]] =>
     match parseInt i with
     | some v => withSrc c (match c.getIdx v with | .ok x => showShape x | .error e => e)
